@@ -36,6 +36,14 @@ def draw(rng, index, tier, shipped_share):
         roll = rng.random()
         case["vm_strs"][vm] = f"only {description['variants'][0]}\n" if roll < 0.6 else ("" if roll < 0.85 else f"only {description['variants'][-1]}\n")
     if rng.random() < 0.2:
+        # deep cloning (a dependant of several producers that has a dependant itself) seen by three or four workers
+        case["suite_spec"] = suitegen.draw_spec(rng, multi_producer_share=1.0, grand_share=1.0)
+        case["vm_strs"] = {vm: f"only {d['variants'][0]}\n" for vm, d in case["suite_spec"]["vms"].items()}
+        case["restriction"] = rng.choice(["leaves", "leaves", "only leaves\nonly tgrand\n", "only leaves\nonly tgrand,tdep\n"])
+        kind = rng.choice(["lxc", "lxc", "remote"])
+        pool = ["net1", "net2", "net4"] if kind == "lxc" else ["cluster1.net6", "cluster1.net8", "cluster2.net6", "cluster2.net8"]
+        case["nets"], case["worker_kind"] = " ".join(rng.sample(pool, 3) if kind == "lxc" else rng.sample(pool, rng.randint(3, 4))), kind
+    elif rng.random() < 0.25:
         # a worker with object restrictions named first, followed by workers that support more variants, and an unrestricted vm
         kind = rng.choice(["lxc", "remote"])
         first = rng.choice(["net5", "net3"]) if kind == "lxc" else rng.choice(["cluster2.net9", "cluster1.net7"])
